@@ -76,6 +76,37 @@ func init() {
 			"seed/hash independence of the traversal's control flow (node bytes never reach a branch or an index) is argued from the code structure, it is not a discharged obligation",
 		},
 	}
+	dilBudget := func(tier string) (int, int) {
+		if tier == "thorough" {
+			return 600, 6
+		}
+		return 40, 2
+	}
+	propConfigs["C07"] = &propConfig{
+		level:   "other",
+		explain: "Deductive part (all inputs): (i) the signer cryptoSignSignature is verified for memory safety and arithmetic ranges on every path of the rejection loop, and `after`-assertions pin the specification's acceptance conditions with their exact bounds at the points where the specification has them: ||z||inf < GAMMA1-BETA, ||LowBits(w-cs2)||inf < GAMMA2-BETA, ||ct0||inf < GAMMA2, hint weight = number of non-zero hint coefficients <= OMEGA, and the z part of the signature is the canonical encoding of z; (ii) the arithmetic components are proved equal to their specification functions (C12: Montgomery/Barrett reduction, Power2Round, Decompose/HighBits/LowBits, MakeHint, UseHint, norm test, NTT tables by exhaustive table evaluation) and the encodings are proved lossless and canonical (C13); (iii) call-history independence: cryptoSign is a function of (message, secret key) only (effects back end: no randomness on the deterministic path, no package-level state, the key object is not written), and the lemma function verifLemmaSignAgain shows the same message signed again after other calls gives the identical signature. Bounded part (labelled bounded): byte identity of whole public keys, secret keys and signatures with an independent specification-level implementation of Dilithium round 3.1 level 5 written from the specification with schoolbook polynomial arithmetic modulo q (no NTT, no Montgomery form, no library function) on VERIF_SEED-derived seeds and messages for a fixed wall-time budget; the reference recognises and counts boundary cases (rejection tests met with equality or missed by one, rounding ties, sampler candidates next to the acceptance bound). NOT under functional contract: the samplers' output as a function of the XOF stream (range contracts only), 'NTT-domain product = polynomial product' beyond the table checks of C12, and the composition of the pieces into whole-key / whole-signature equality.",
+		extras: func(e *Engine, tier string, seed int) []ExtraResult {
+			sec, keys := dilBudget(tier)
+			return e.dilRefRun(sec, keys, seed)
+		},
+		trusted: []string{
+			"byte identity of keys and signatures with the specification is decided only by the bounded differential run (quick: 2 seeds / 40 s, thorough: 6 seeds / 600 s); boundary cases met are counted in the evidence, boundary cases not met are not covered",
+			"SHAKE-128/256 (golang.org/x/crypto/sha3) is shared by the library and the reference and trusted (T4)",
+			"termination of the rejection loop and of the rejection samplers is assumed (decreases _)",
+		},
+	}
+	propConfigs["C03"] = &propConfig{
+		level:   "other",
+		explain: "Deductive part (all inputs): (i) framing, by lemma functions over the real Seal/Sign/Open/Extract code: Seal(m) = Sign(m) || m, ExtractSignature(Seal(m)) = Sign(m), ExtractMessage(Seal(m)) = m (verifLemmaSealFraming), and Open(Seal(m)) returns exactly m when Verify(m, Sign(m)) holds and nothing otherwise (verifLemmaOpenOfSeal); cryptoSign is a function of (message, key) so the two calls agree; (ii) signer-side acceptance conditions with exact bounds (see C07) and the coefficient-level lemmas that make verification recompute the signer's w1: L_usehint (UseHint(MakeHint(z,r),r) = HighBits(r+z)), L_hint_code_shape (the library's makeHint code on (w0-cs2+ct0, w1) is the specification's MakeHint under the signer's norm conditions), Decompose/UseHint contracts (C12). Bounded part (labelled bounded): 'Verify(m, Sign(m), pk) is true' for whole signatures needs the ring identity Az - c*t1*2^d = w - c*s2 + c*t0 over NTT-domain arithmetic, which is not mechanised; it is decided on VERIF_SEED-derived seeds and messages of lengths 0..5000 by running the real signer and verifier (and an independent specification-level verifier) for a fixed wall-time budget, recording how many rejection-loop iterations of each kind occurred.",
+		extras: func(e *Engine, tier string, seed int) []ExtraResult {
+			sec, keys := dilBudget(tier)
+			return e.dilRefRun(sec, keys, seed)
+		},
+		trusted: []string{
+			"sign->verify for whole signatures is decided only by the bounded run (quick: 2 seeds / 40 s; thorough: 6 seeds / 600 s); the ring-algebra step is not mechanised",
+			"termination of the rejection loop is assumed (decreases _)",
+		},
+	}
 	propConfigs["C06"] = &propConfig{
 		level: "other",
 		explain: "Deductive part (all inputs): every hash construction of the scheme is proved equal to its specification over uninterpreted hash primitives: coreHash = H_id(toByte(type,32) || key || in) for ids 0..2 and a no-op otherwise, prf (type 3), hashF (type 0, key = PRF(pubSeed, addr|km=0), mask km=1), hashH (type 1, masks km=1,2), hMsg (type 2, 96-byte key), big-endian address serialisation and toByte, getSeed, expandSeed, the SHAKE-256 seed expansion and sk/pk layout of XMSSFastGenKeyPair, and the signing-side wiring of xmssFastSignMessage (R = PRF(SK_PRF, toByte(idx,32)), hash key R || root || toByte(idx,32), index field, randomiser field, authentication path copied from the state BEFORE the traversal step); Verify == VerifyWithCustomWOTSParamW(.., 16). Bounded part (labelled): an independent full-Merkle-tree reference implementation written from RFC 8391 + QRL conventions reproduces the library's public key and the signature bytes at every index of the listed heights for all three hash functions; tree root / authentication-path contents additionally inherit the label run of C01. Not under functional contract: the recursive structure of WOTS chains, L-tree and Merkle tree (genChain, lTree, treeHashSetup are verified for safety and frames only).",
